@@ -388,7 +388,7 @@ def check(prop, tier, replay=None):
             t1 = time.time()
             try:
                 p_ = _sp.run(["apalache-mc", "check", "--cinit=CInit", *args, f"--out-dir={wd}/apalache_{name}", "ReaderInt.tla"], cwd=wd, capture_output=True, text=True,
-                             timeout=900, env=dict(os.environ, JVM_ARGS=(os.environ.get("JVM_ARGS", "") + " -Djava.io.tmpdir=" + jtmp).strip()))
+                             timeout=(240 if tier == "quick" else 900), env=dict(os.environ, JVM_ARGS=(os.environ.get("JVM_ARGS", "") + " -Djava.io.tmpdir=" + jtmp).strip()))
                 ok, bad, out = "EXITCODE: OK" in p_.stdout, "EXITCODE: ERROR (12)" in p_.stdout, p_.stdout[-400:]
             except _sp.TimeoutExpired:
                 ok, bad, out = False, False, "timeout"
